@@ -219,6 +219,7 @@ def main (args : List String) : IO Unit :=
   | ["grid"] => pure ()      -- (abstract container: no probe lattice; the C18 correspondence and oracle search the implementation)
   | ["neighbors"] => pure ()      -- (abstract tree: no probe lattice; the C15 correspondence and oracle search the implementation)
   | ["score"] => pure ()      -- (abstract estimator: no probe lattice; the C12 correspondence and oracle search the implementation)
+  | ["makegrid"] => pure ()      -- (abstract container: the C18 correspondence and oracle search the implementation)
   | ["fit"] => pure ()      -- (specifications: the C01 correspondence and oracle search the implementation)
   | ["vector"] => pure ()      -- (abstract components: no probe lattice; the C06 correspondence and oracle search the implementation)
   | ["distmask"] => pure ()      -- (abstract tree: no probe lattice; the C15 correspondence and oracle search the implementation)
